@@ -126,6 +126,7 @@ class DocGen:
     def __init__(self, rng, profile='full'):
         self.rng, self.n, self.profile = rng, 0, profile
         self.features = set()
+        self.hstack = []
 
     def style(self, kind, depth, ctxdepth):
         rng = self.rng
@@ -174,11 +175,18 @@ class DocGen:
                 and 'position:fixed' not in ';'.join(st):
             st.append('float:%s;width:%dpx' % (rng.choice(['left', 'right']), rng.choice([15, 25, 40])))
             self.features.add('float')
+        # visibility is inherited, not a subtree switch: descendants of a hidden element are made visible again
+        # often (hstack: depths of the open hidden ancestors; generation is depth first and descendants are deeper)
+        while self.hstack and self.hstack[-1] >= depth:
+            self.hstack.pop()
         if rng.random() < 0.07:
             st.append('visibility:hidden')
             self.features.add('hidden')
-        elif rng.random() < 0.02:
+            self.hstack.append(depth)
+        elif rng.random() < (0.35 if self.hstack else 0.02):
             st.append('visibility:visible')
+            if self.hstack:
+                self.features.add('revisible:' + kind)      # (approximate: a later, deeper sibling counts too)
         if kind in ('div', 'ib', 'td', 'span', 'table'):
             if rng.random() < 0.35:
                 w = rng.choice([1, 2, 3])
@@ -1092,11 +1100,30 @@ def judge_geometry(boxes, pairs, geo, doc, fonts_cache, rcases=None):
     if rcases is None:
         rcases = []
     seen_r = set()
+    def skey(shape):
+        return tuple(round(v, 4) for v in shape[:4]) + tuple(round(v, 4) for v in shape[4])
     def note(n, which, shape):
-        key = (n, which, tuple(round(v, 4) for v in shape[:4]) + tuple(round(v, 4) for v in shape[4]))
+        key = (n, which, skey(shape))
         if key not in seen_r:
             seen_r.add(key)
             rcases.append(dict(radius_case(boxes[n], which, shape, geo.box_rect(n, 'border-box')), box=n))
+    def note_any(n, which, shapes):
+        """The clause is existential: ONE clip of the item is the rounded `which` of box n.  Other clips on the same
+        rectangle belong to other boxes (the item's own painting area, an ancestor or descendant whose box coincides):
+        all candidates go to the Coq judge (field alts), the case holds when one of them does."""
+        uniq = []
+        for sh in shapes:
+            if skey(sh) not in [skey(u) for u in uniq]:
+                uniq.append(sh)
+        if len(uniq) == 1:
+            return note(n, which, uniq[0])
+        key = (n, which, tuple(sorted(skey(u) for u in uniq)))
+        if key not in seen_r:
+            seen_r.add(key)
+            rect = geo.box_rect(n, 'border-box')
+            rc = dict(radius_case(boxes[n], which, uniq[0], rect), box=n)
+            rc['alts'] = [radius_case(boxes[n], which, u, rect)['obs'] for u in uniq[1:]]
+            rcases.append(rc)
     for (n, role, col), items in pairs:
         r = boxes[n]
         if role == 'collapsed' or not items:
@@ -1127,8 +1154,8 @@ def judge_geometry(boxes, pairs, geo, doc, fonts_cache, rcases=None):
                              if same_rect(sh, rect)]
                     if not found:
                         has = False
-                    for sh in found:
-                        note(a, 'padding-box', sh)
+                    else:
+                        note_any(a, 'padding-box', found)
             else:
                 has = all(any(len(cl[0]) == 1 and same_poly([geo.to_css(p) for p in cl[0][0]], want) for cl in it['clips'])
                           for it in items)
@@ -1159,7 +1186,7 @@ def judge_geometry(boxes, pairs, geo, doc, fonts_cache, rcases=None):
                 if not found:
                     bad.append(('background-clip-box', n, 'no rounded clip on the %s' % which))
                 if found:
-                    note(n, which, found[0])
+                    note_any(n, which, found)
         elif role == 'border':
             outer = geo.rect_poly(n, geo.box_rect(n, 'border-box'))
             inner = geo.rect_poly(n, geo.box_rect(n, 'padding-box'))
@@ -1395,6 +1422,12 @@ FIXED_DOCS = {
         '<div id="e3" style="width:50px;height:30px;border-style:solid;border-color:#c00;border-width:3px 10px 5px 20px;'
         'border-radius:9999px;background:#a00;overflow:hidden;color:#b00"><div id="e4" style="background:#d00;'
         'height:30px;color:#e00">ab</div></div>',
+    'side-clip-large-radius':         # F220, fixed by 798b0ad (corner as tall / as wide as the border box)
+        '<div id="e2" style="width:50px;height:15px;border-style:solid;border-color:#900;border-width:5px 0 8px 1px;'
+        'border-top-right-radius:28px 33px;background:#700"></div>'
+        '<div id="e3" style="margin-top:4px;width:50px;height:15px;border-style:solid;border-color:#c00;'
+        'border-width:2px 6px 0 8px;border-top-left-radius:64px 8.5px;background:#a00;background-clip:padding-box">'
+        '</div>',
     'grid-context':          # F104, fixed by 22caa46
         '<div id="e2" style="display:grid;background:#700;border:2px solid #900;opacity:.5">'
         '<div id="e3" style="background:#a00;color:#b00">ab</div></div>'
@@ -1651,7 +1684,7 @@ def check(run):
                             {'stream': 'display', 'html': d['html'], 'page': pi, 'clause': clause, 'box': n, 'detail': detail},
                             clause)
             for rc in pg['rcases']:
-                rad_cases.append(render_radius_term(rc))
+                rad_cases.append(rc)
                 rad_meta.append((d, pi, rc, pg['boxdesc'].get(str(rc['box']), '')))
             nodes = pg['nodes']
             if not pg['identity']:
@@ -1721,7 +1754,7 @@ def check(run):
     except RuntimeError as exc:
         run.oblige('corr:display', False, str(exc))
     try:
-        masks = common.eval_cases('c17rr_%d' % os.getpid(), PRE_R, RRENDER_T, rad_cases, 'radius_render_judge', per_file=400)
+        masks = eval_radius_render('c17rr_%d' % os.getpid(), rad_cases)
         mism = [m_ for m_, k in zip(rad_meta, masks) if k & 1]
         run.oblige('corr:radius-render(corner extents of the m/l/c paths = model rounded_box)', not mism,
                    'first disagreement: %s' % (((mism[0][2], mism[0][0]['html'][:2000]) if mism else ''),))
@@ -1780,8 +1813,7 @@ def replay(data):
         rcs = [rc for pg in o['pages'] for rc in pg['rcases']]
         rmasks = []
         if rcs:
-            rmasks = common.eval_cases('c17replay_%d' % os.getpid(), PRE_R, RRENDER_T, [render_radius_term(rc) for rc in rcs],
-                                       'radius_render_judge', per_file=400)
+            rmasks = eval_radius_render('c17replay_%d' % os.getpid(), rcs)
             for rc, k in zip(rcs, rmasks):
                 if k & 3:
                     print('replay: corner radii (1 model<>stream, 2 CSS<>stream, 4 outer radii overlap): mask %d %s' % (k, rc))
@@ -1968,3 +2000,23 @@ def render_radius_term(c):
 
 
 RRENDER_T = '(Q * Q) * radii * (Q * Q * Q * Q) * rbox'
+
+
+def eval_radius_render(tag, rcs):
+    """radius_render_judge (Coq) on every case -> one mask per case.  A case with several candidate clips (field alts,
+    see judge_geometry.note_any) is judged on each candidate inside Coq and holds when one candidate holds: the mask
+    kept is the first one without bits 1/2, else the first one that agrees with the model, else the first; rc['obs']
+    is set to the candidate kept (for the report)."""
+    terms, owner = [], []
+    for i, rc in enumerate(rcs):
+        for obs in [rc['obs']] + list(rc.get('alts', [])):
+            terms.append(render_radius_term(dict(rc, obs=obs)))
+            owner.append((i, obs))
+    ms = common.eval_cases(tag, PRE_R, RRENDER_T, terms, 'radius_render_judge', per_file=400)
+    rank = lambda k: 0 if not k & 3 else (1 if not k & 1 else 2)
+    out = [None] * len(rcs)
+    for (i, obs), k in zip(owner, ms):
+        if out[i] is None or rank(k) < rank(out[i]):
+            out[i] = k
+            rcs[i]['obs'] = obs
+    return out
